@@ -750,8 +750,8 @@ fn c34_mpsc_schedule_k4() {
 }
 
 // @check props=C34 tier=thorough timeout=1500
-// @desc mpsc, element type (): for every schedule of 4 atomic operations from {send(i), clone sender i->j, drop sender i, poll with waker A|B, drop receiver} on up to 2 senders: send through a live handle always succeeds; every poll is Ready(Some) iff the number of sends exceeds the number of receives (each sent element received exactly once; elements queued before the last sender drop are delivered first), Pending iff the queue is empty and a sender is alive, Ready(None) iff the queue is empty and every sender is dropped; a send and the drop of the last sender while the receiver is parked wake the most recently registered waker
-// @bounds k = 4 operations (shorter included), <= 2 live senders, 1 receiver, 2 wakers, element type () (queue = counter; value identity / FIFO order: see c34_mpsc_fifo_three_values); unwind 5 = k + 1
+// @desc mpsc, element type (): for every schedule of 3 atomic operations from {send(i), clone sender i->j, drop sender i, poll with waker A|B, drop receiver} on up to 2 senders: send through a live handle always succeeds; every poll is Ready(Some) iff the number of sends exceeds the number of receives (each sent element received exactly once; elements queued before the last sender drop are delivered first), Pending iff the queue is empty and a sender is alive, Ready(None) iff the queue is empty and every sender is dropped; a send and the drop of the last sender while the receiver is parked wake the most recently registered waker
+// @bounds k = 3 operations (shorter included), <= 2 live senders, 1 receiver, 2 wakers, element type () (queue = counter; value identity / FIFO order: see c34_mpsc_fifo_three_values); unwind 4 = k + 1
 // @assume critical_section::acquire/release stubbed by no-ops (support_cs.rs): a critical section is a block no other operation interleaves with; true parallelism inside it is outside the claim
 // @assume AtomicUsize::fetch_sub stubbed (support_cs.rs fetch_sub_never_last: decrements, reports "other references exist"): the shared state behind an Arc is never destroyed or freed; Drop impls of the channel handle types run for real, Arc::drop_slow and deallocation are outside the claim
 // @assume each poll step polls a fresh MpscReceiver::receive() future once (the future's only state is a clone of the shared Arc)
@@ -763,12 +763,12 @@ fn c34_mpsc_schedule_k4() {
 // @enc dcps::channels::mpsc::MpscReceiver::receive
 // @enc <dcps::channels::mpsc::MpscReceiverFuture as Future>::poll
 #[kani::proof]
-#[kani::unwind(5)]
+#[kani::unwind(4)]
 #[kani::stub(critical_section::acquire, super::support_cs::cs_acquire)]
 #[kani::stub(critical_section::release, super::support_cs::cs_release)]
 #[kani::stub(core::sync::atomic::Atomic::<usize>::fetch_sub, super::support_cs::fetch_sub_never_last)]
-fn c34_mpsc_schedule_k4_two_wakers() {
-    mpsc_schedule::<4, 2, true>();
+fn c34_mpsc_schedule_k3_two_wakers() {
+    mpsc_schedule::<3, 2, true>();
 }
 
 // @check props=C34 tier=thorough timeout=1500
@@ -810,23 +810,4 @@ fn c34_mpsc_schedule_k5() {
 #[kani::stub(core::sync::atomic::Atomic::<usize>::fetch_sub, super::support_cs::fetch_sub_never_last)]
 fn c34_mpsc_last_sender_drop_p2() {
     mpsc_schedule_last_drop::<2, 2>();
-}
-
-// @check props=C34 tier=thorough timeout=1500
-// @desc mpsc last-sender drop: as c34_mpsc_last_sender_drop with a 3-operation prefix
-// @bounds prefix of 3 symbolic operations, then <= 2 sender drops, then 1 poll; <= 2 senders, 1 waker, element type (); unwind 4
-// @assume critical_section::acquire/release stubbed by no-ops (support_cs.rs): a critical section is a block no other operation interleaves with; true parallelism inside it is outside the claim
-// @assume AtomicUsize::fetch_sub stubbed (support_cs.rs fetch_sub_never_last: decrements, reports "other references exist"): the shared state behind an Arc is never destroyed or freed; Drop impls of the channel handle types run for real, Arc::drop_slow and deallocation are outside the claim
-// @assume each poll step polls a fresh MpscReceiver::receive() future once (the future's only state is a clone of the shared Arc)
-// @assume scenario: the prefix ends with >= 1 live sender, an empty queue and a live receiver (kani::assume)
-// @enc dcps::channels::mpsc::MpscSender::send
-// @enc <dcps::channels::mpsc::MpscSender as Drop>::drop
-// @enc <dcps::channels::mpsc::MpscReceiverFuture as Future>::poll
-#[kani::proof]
-#[kani::unwind(4)]
-#[kani::stub(critical_section::acquire, super::support_cs::cs_acquire)]
-#[kani::stub(critical_section::release, super::support_cs::cs_release)]
-#[kani::stub(core::sync::atomic::Atomic::<usize>::fetch_sub, super::support_cs::fetch_sub_never_last)]
-fn c34_mpsc_last_sender_drop_p3() {
-    mpsc_schedule_last_drop::<3, 2>();
 }
